@@ -192,10 +192,65 @@ def whole_rule(rep, mod, fname, width, poly, reflected, seed_name, data_name, le
                 args.append(('p', 'data', 0))
             else:
                 args.append(BV.sym(p['ty'].get('bits', 8), 'x_' + p['name']))
-        ev = FuncEval(f, mod, args)
-        ev.read_limit = L
+        from gf2 import NeedSplit
+
+        def runs(choices, subst, depth=0):
+            """[(substitution, evaluator, result)]: one evaluation per outcome of every select that is not affine.  On the
+            side where `x == constant` holds the bits of x (plain input symbols) are replaced by the constant, so that a
+            special case for one seed / byte value is compared with the definition at exactly that value"""
+            e_ = FuncEval(f, mod, args)
+            e_.read_limit = L
+            e_.select_choice = dict(choices)
+            try:
+                return [(subst, e_, e_.run())]
+            except NeedSplit as ns:
+                if depth >= 4:
+                    raise DataDependentBranch(ns.inst)
+                ci = f.inst_of(ns.inst.ops[0])
+                if ci is None or ci.op != 'icmp' or ci.pred not in ('eq', 'ne') or not any(o.k == 'ci' for o in ci.ops):
+                    raise DataDependentBranch(ns.inst)
+                xv = [o for o in ci.ops if o.k != 'ci'][0]
+                kc = [o for o in ci.ops if o.k == 'ci'][0].uval
+                probe = FuncEval(f, mod, args)
+                probe.read_limit = L
+                probe.select_choice = dict(choices)
+                probe.select_choice[ns.inst.id] = True
+                try:
+                    probe.run()
+                except Exception:
+                    pass
+                x = probe.env.get(('i', xv.id)) if xv.k == 'inst' else probe.env.get(('a', xv.argno))
+                if not isinstance(x, BV) or not all(len(b_) == 1 and ONE not in b_ for b_ in x.bits):
+                    raise DataDependentBranch(ns.inst)
+                m_eq = dict(subst)
+                for n_, b_ in enumerate(x.bits):
+                    m_eq[next(iter(b_))] = (kc >> n_) & 1
+                eq_arm = (ci.pred == 'eq')          # the select's condition is true on the equal side iff pred is eq
+                out_ = []
+                c1 = dict(choices); c1[ns.inst.id] = eq_arm
+                out_ += runs(c1, m_eq, depth + 1)
+                c2 = dict(choices); c2[ns.inst.id] = not eq_arm
+                out_ += runs(c2, subst, depth + 1)
+                return out_
+
+        def sub(bv, m):
+            if not m or not isinstance(bv, BV):
+                return bv
+            o_ = []
+            for b_ in bv.bits:
+                acc = frozenset()
+                for x_ in b_:
+                    if x_ in m:
+                        if m[x_]:
+                            acc = acc ^ frozenset([ONE])
+                    else:
+                        acc = acc ^ frozenset([x_])
+                o_.append(acc)
+            return BV(bv.w, o_)
         try:
-            out = ev.run()
+            alts = runs({}, {})
+            ev = alts[0][1]
+            out = alts[0][2]
         except ReadOutside as e:
             rep.inst('R-CRCWHOLE', fname, 'length=%d' % L, False, e.inst.where(),
                      'with length %d the routine reads %d byte(s) at offset %d of the data' % (L, e.nb, e.off))
@@ -232,8 +287,18 @@ def whole_rule(rep, mod, fname, width, poly, reflected, seed_name, data_name, le
             for k in range(L):
                 st = crc_step_ref(st, ev.byte('data', k), poly, sw, reflected)
         want = st
-        ok = isinstance(out, BV) and out.w >= sw and out.trunc(sw) == want and \
-            all(not b for b in out.bits[sw:])
+        ok = True
+        for (m_, e2, o2) in alts:
+            if e2 is not ev:
+                # (byte symbols are named by position: the reference built from `ev` serves every alternative)
+                pass
+            okk = isinstance(o2, BV) and o2.w >= sw and sub(o2.trunc(sw), m_) == sub(want, m_) and \
+                all(not b for b in sub(o2, m_).bits[sw:])
+            if not okk:
+                ok = False
+                out = sub(o2, m_)
+                want = sub(want, m_)
+                break
         rep.inst('R-CRCWHOLE', fname, 'length=%d' % L, ok, where,
                  None if ok else 'for length %d the value returned differs from the definition folded over the %d byte(s) '
                  '(seed and data symbolic): got bit0=%s, definition bit0=%s' % (
